@@ -585,6 +585,18 @@ func (c *Component) handleSessionLifecycle(event events.Event) {
 	c.logger.Debug("Added session to bucket for accounting", "sessionId", sessionId, "bucketId", bucketId)
 
 	c.acctCacheMu.Lock()
+	if existing, ok := c.acctCache[sessionId]; ok {
+		// The entry was rebuilt from an opdb checkpoint by loadAcctSessions
+		// and this lifecycle event overtook the TopicSessionRestored
+		// emission. Accounting-Start went out before the restart: adopt
+		// the entry exactly as handleSessionRestored would instead of
+		// zeroing its counters and sending a second Start.
+		existing.pendingSessionConfirm = false
+		existing.swIfIndex = swIfIndex
+		existing.l2gwHandoffIndex = l2gwHandoffIndex
+		c.acctCacheMu.Unlock()
+		return
+	}
 	acctSession := &AccountingSession{
 		sessionID:        sessionId,
 		acctSessionID:    acctSessionID,
